@@ -21,9 +21,14 @@
    * [last_dash h None = Some d]  d is the dashboard at the most recent on_enable;
                      [period_duration sh d s] the duration it gives state s
                      (the default if the entry is absent; 0xFFFFFFFF s if untimed).
+   * [m : mro]       the mode CLASS: the bodies of type(self).__mro__, most derived
+                     first; states may be inherited from base classes and be
+                     redefined by subclasses.  [build_states inf m = inr sh]: the
+                     constructor's state discovery yields the machine [sh]
+                     (Section C15_mode: sh has exactly the states of the class).
    All theorems hold for EVERY shape, history and user behaviour; the only
    hypothesis on the shape is that its first state is one of its states (the
-   constructor guarantees it).  No bound on lengths, durations or clock values;
+   constructor guarantees it: C15_mode_states_are_class_states).  No bound on lengths, durations or clock values;
    durations may be zero or negative, tm may be negative. *)
 From Coq Require Import ZArith List Bool Lia.
 From RV Require Import Stateful.Model Stateful.Proofs Stateful.Legacy.
